@@ -199,7 +199,7 @@ class DataTypeParameter(StringParameter):
 
         try:
             return self.valid_types[value]
-        except KeyError:
+        except (KeyError, TypeError):
             raise ParameterNotValid(
                 value,
                 "Data Type ({})".format(",".join(self.valid_types.keys())),
